@@ -90,6 +90,7 @@ type VC struct {
 	inlineSeq int
 	noSafety  bool
 	preludeError string
+	altLoops  bool // built with the alternative loop invariant sets
 	refLoops  map[Term]map[string]bool // fresh ref -> loops active when it was allocated
 	mapKeys   map[string][]Term // map domain heap -> key terms used by the function (replay candidates)
 	lemma     *Lemma
